@@ -466,14 +466,15 @@ const InitSpaces = N - F
 
 // EncodeParse encodes in with an arbitrary valid parse chosen by choose (brute force window
 // search; test generator only). initReach limits references into the space-filled initial window
-// to that many positions before the first byte (0..N-F).
+// to that many positions before the first byte (0..N: the first N-F are spaces, the remaining F are the
+// NUL bytes of the not yet written look-ahead area).
 func EncodeParse(in []byte, b2 bool, initReach int, choose Chooser) ([]byte, Stats) {
 	var st Stats
 	if len(in) == 0 {
 		return header(0, b2, nil), st
 	}
-	if initReach > InitSpaces {
-		initReach = InitSpaces
+	if initReach > N {
+		initReach = N
 	}
 	c := &coder{m: newModel()}
 	// virtual history: initReach spaces followed by the input
@@ -482,7 +483,12 @@ func EncodeParse(in []byte, b2 bool, initReach int, choose Chooser) ([]byte, Sta
 			return in[i], true
 		}
 		if -i <= initReach {
-			return ' ', true
+			if -i <= InitSpaces {
+				return ' ', true
+			}
+			// ring positions N-F..N-1 (at and ahead of the initial write position) start as NUL in
+			// the canonical decoder and are reached by distances 1989..2048 before they are overwritten
+			return 0, true
 		}
 		return 0, false
 	}
